@@ -5,7 +5,10 @@ A case is a history: {"start", "end": arguments of MemoryIO; "lo", "mem": the by
 controller (window [lo, lo+len(mem)), 8 bytes of padding on each side of the allocation);
 "ops": [[vid, "seek", n, whence|None], [vid, "read", n|None], [vid, "write", [bytes]],
 [vid, "slice", a|None, b|None, step|None, newid|None], [vid, "tell"|"len"|"address"|"flush"|"close"],
-["free"]]}.  Views are numbered in order of creation (0 = the MemoryIO); `newid` is the number the
+["free"], and the environment: [vid, "fread", n|None] / [vid, "fwrite", [bytes]] = read/write during which the
+controller raises (transport fault), [vid, "sread", n|None] / [vid, "swrite", [bytes]] = read/write with
+TruncationWarning turned into an exception, [vid, "enter"] / [vid, "exit", None|"body"|"truncation"|"prev"] =
+a `with view:` block entered / left normally or by an exception]}.  Views are numbered in order of creation (0 = the MemoryIO); `newid` is the number the
 generator gave to the view a slice is expected to create (None when the slice is expected to fail)."""
 import itertools
 import json
@@ -34,25 +37,32 @@ def gen_case(rng, malformed=False, maxops=25):
     views = [dict(n=length, closed=False, depth=0)]
     freed = False
     ops = []
+    entered = []
     for _ in range(rng.randint(1, maxops)):
         vid = len(views) - 1 if rng.random() < 0.45 else rng.randrange(len(views))
         if views[vid]["n"] == 0 and rng.random() < 0.6:        # prefer views that can transfer something
             vid = rng.randrange(len(views))
         v = views[vid]
         n = v["n"]
-        k = rng.choices(["seek", "read", "write", "slice", "tell", "len", "address", "flush", "close", "free"],
-                        [22, 18, 18, 13, 5, 4, 3, 2, 1.5, 0.6])[0]
+        k = rng.choices(["seek", "read", "write", "slice", "tell", "len", "address", "flush", "close", "free",
+                         "enter", "exit"],
+                        [22, 18, 18, 13, 5, 4, 3, 2, 1.5, 0.6, 2.0, 0.8])[0]
+        if entered and rng.random() < 0.12:
+            k, vid = "exit", rng.choice(entered)
+            v = views[vid]
+            n = v["n"]
+        mode = rng.choices(["", "f", "s"], [86, 8, 6])[0] if k in ("read", "write") else ""
         if k == "seek":
             wh = rng.choice([None, 0, 0, 1, 1, 2, 2, 2])
             if malformed and rng.random() < 0.3:
                 wh = rng.choice([3, -1, 7])
             ops.append([vid, "seek", _near(rng, n), wh])
         elif k == "read":
-            ops.append([vid, "read", rng.choice([None, None, -1, -5, 0, 1, 2, n, n + 1, rng.randint(0, n + 4),
-                                                 rng.randint(0, n + 4)])])
+            ops.append([vid, mode + "read", rng.choice([None, None, -1, -5, 0, 1, 2, n, n + 1, rng.randint(0, n + 4),
+                                                        rng.randint(0, n + 4)])])
         elif k == "write":
             ln = min(45, rng.choice([0, 1, 2, 3, n, n + 1, rng.randint(0, n + 5), rng.randint(0, n + 5)]))
-            ops.append([vid, "write", [rng.randrange(256) for _ in range(ln)]])
+            ops.append([vid, mode + "write", [rng.randrange(256) for _ in range(ln)]])
         elif k == "slice":
             a = None if rng.random() < 0.2 else _near(rng, n)
             b = None if rng.random() < 0.2 else _near(rng, n)
@@ -72,6 +82,14 @@ def gen_case(rng, malformed=False, maxops=25):
         elif k == "free":
             ops.append(["free"])
             freed = True
+        elif k == "enter":
+            ops.append([vid, "enter"])
+            entered.append(vid)
+        elif k == "exit":
+            ops.append([vid, "exit", rng.choice([None, None, "body", "truncation", "prev"])])
+            if vid in entered:
+                entered.remove(vid)
+            v["closed"] = True
         else:
             ops.append([vid, k])
             if k == "close":
@@ -120,14 +138,15 @@ def coq_op(o):
     k = o[1]
     if k == "seek":
         vo = "Seek %s %s" % (zlit(o[2]), zlit(0 if o[3] is None else o[3]))
-    elif k == "read":
-        vo = "Read %s" % zlit(-1 if o[2] is None else o[2])
-    elif k == "write":
-        vo = "Write %s" % vlist(str(b) for b in o[2])
+    elif k in ("read", "fread", "sread"):
+        vo = "%s %s" % (dict(read="Read", fread="FaultRead", sread="StrictRead")[k], zlit(-1 if o[2] is None else o[2]))
+    elif k in ("write", "fwrite", "swrite"):
+        vo = "%s %s" % (dict(write="Write", fwrite="FaultWrite", swrite="StrictWrite")[k], vlist(str(b) for b in o[2]))
     elif k == "slice":
         vo = "Slice %s %s %s" % (vopt(o[2], zlit), vopt(o[3], zlit), vopt(o[4], zlit))
     else:
-        vo = dict(tell="Tell", len="Len", address="Address", flush="Flush", close="Close")[k]
+        vo = dict(tell="Tell", len="Len", address="Address", flush="Flush", close="Close", enter="Enter",
+                  exit="Exit")[k]
     return "OView %d (%s)" % (o[0], vo)
 
 
@@ -139,7 +158,11 @@ def coq_case(c):
 def canon_model(v):
     obs, final = v
     out = []
-    for res, nw, calls, probe in obs:
+    def ccall(c):
+        return {"CRead": lambda: ["r", c[1], c[2]], "CWrite": lambda: ["w", c[1], list(c[2])],
+                "CFree": lambda: ["f", c[1]]}[c[0]]()
+
+    for res, nw, calls, probe, att in obs:
         if res[0] == "Ok":
             x = res[1]
             if x[0] == "@":                     # a nullary constructor in argument position
@@ -150,19 +173,15 @@ def canon_model(v):
             r = ["err", res[1]]
         else:
             r = ["model-" + res[0]]
-        cs = []
-        for c in calls:
-            cs.append({"CRead": lambda: ["r", c[1], c[2]], "CWrite": lambda: ["w", c[1], list(c[2])],
-                       "CFree": lambda: ["f", c[1]]}[c[0]]())
-        out.append([r, nw, cs, None if probe is None else probe[1]])
+        out.append([r, nw, [ccall(c) for c in calls], None if probe is None else probe[1], [ccall(c) for c in att]])
     return [out, list(final)]
 
 
 def canon_impl(o):
     out = []
-    for res, nw, calls, probe in o[1]:
+    for res, nw, calls, probe, att in o[1]:
         r = res[:3] if res[0] == "view" else (["other"] if res[0] == "other" else res)
-        out.append([r, nw, calls, probe])
+        out.append([r, nw, calls, probe, att])
     return [out, o[2]]
 
 
@@ -184,7 +203,7 @@ def oracle(c, out):
     def fail(key, what, i):
         bad.append((key, "op %d %r: %s" % (i, c["ops"][i], what)))
 
-    for i, (o, (res, nwarn, calls, probe)) in enumerate(zip(c["ops"], out[1])):
+    for i, (o, (res, nwarn, calls, probe, att)) in enumerate(zip(c["ops"], out[1])):
         if res[0] == "noview":
             continue
         if o[0] == "free":
@@ -195,14 +214,16 @@ def oracle(c, out):
                 if cl[0] != "f":
                     fail("free-accesses-memory", "free() issued %r" % (cl,), i)
             continue
-        vid, kind = o[0], o[1]
+        vid, kind, mode = o[0], o[1], ""
+        if kind in ("fread", "fwrite", "sread", "swrite"):
+            kind, mode = kind[1:], kind[0]      # the same method, with the environment misbehaving
         v = views[vid]
         if v is None:
             continue
         n = v["hi"] - v["lo"]
         vs, ve = base + v["lo"], base + v["hi"]
         # confinement: whatever the operation, whatever its outcome
-        for cl in calls:
+        for cl in calls + att:                  # (att: the access during which the controller raised)
             if cl[0] == "f":
                 fail("view-op-frees", "issued sdram_free", i)
                 continue
@@ -221,11 +242,24 @@ def oracle(c, out):
                         else "alive-after-" + ("close" if v["closed"] else "free")
                     fail(key, "%s on a %s view succeeded with %r" % (
                         kind, "closed" if v["closed"] else "freed", res), i)
-                if calls:
-                    fail("access-after-" + ("close" if v["closed"] else "free"), "issued %r" % (calls,), i)
+                if calls or att:
+                    fail("access-after-" + ("close" if v["closed"] else "free"), "issued %r" % (calls + att,), i)
             continue                            # (the generator numbers no view for a slice of a dead view)
         pos = v["pos"]
-        if kind == "seek":
+        label = kind
+        if mode == "f" and att:
+            # the transport failed during the transfer: nothing was transferred, so the position stays
+            # and nothing may be reported as transferred
+            label = "failed-" + kind
+            if (res[0] == "bytes" and res[1]) or (res[0] == "int" and res[1] > 0):
+                fail("failed-transfer-reported", "the controller raised during the %s, yet it returned %r" % (
+                    kind, res), i)
+        elif mode == "s" and res == ["err", 3]:
+            # the TruncationWarning was raised as an exception: the call did not happen
+            label = "refused-" + kind
+            if calls:
+                fail("transfer-then-raise", "%s raised TruncationWarning after issuing %r" % (kind, calls), i)
+        elif kind == "seek":
             wh = 0 if o[3] is None else o[3]
             if wh not in (0, 1, 2):
                 continue                        # from_what outside 0/1/2: the property says nothing
@@ -290,16 +324,19 @@ def oracle(c, out):
         elif kind == "flush":
             if failed:
                 fail("flush-fails", "flush on a live view gave %r" % (res,), i)
-        elif kind == "close":
+        elif kind == "close" or kind == "exit":     # leaving a with block, however it is left, closes the view
             if failed:
-                fail("close-fails", "close of a live view gave %r" % (res,), i)
+                fail(kind + "-fails", "%s of a live view gave %r" % (kind, res), i)
             v["closed"] = True
             continue
+        elif kind == "enter":
+            if failed:
+                fail("enter-fails", "entering a with block on a live view gave %r" % (res,), i)
         if probe is None:
-            fail("live-view-fails", "tell() after %s on a live view failed" % kind, i)
+            fail("live-view-fails", "tell() after %s on a live view failed" % label, i)
         elif probe != v["pos"]:
-            fail("position-after-" + kind, "tell() == %d after %s, the file's position is %d" % (
-                probe, kind, v["pos"]), i)
+            fail("position-after-" + label, "tell() == %d after %s, the file's position is %d" % (
+                probe, label, v["pos"]), i)
             v["pos"] = probe
     # the memory afterwards: the file inside the allocation, untouched outside
     exp = [data[a - base] if base <= a < base + total else memd[a] for a in range(c["lo"], c["lo"] + len(c["mem"]))]
@@ -315,9 +352,15 @@ def oracle(c, out):
 def features(c, out):
     f = set()
     ntransfer = 0
-    for o, (res, nwarn, calls, probe) in zip(c["ops"], out[1]):
+    for o, (res, nwarn, calls, probe, att) in zip(c["ops"], out[1]):
         if calls and calls[0][0] in "rw":
             ntransfer += 1
+        if att:
+            f.add("transport-fault")
+        if res == ["err", 3]:
+            f.add("truncation-raised")
+        if len(o) > 1 and o[1] == "exit" and res == ["none"]:
+            f.add("with-left-" + ("normally" if o[2] is None else "by-exception"))
         if nwarn:
             f.add("truncated")
         if res == ["err", 0]:
@@ -410,7 +453,8 @@ def run(chk, args):
                     break
             else:
                 chk.oblige("correspondence:memio (%d histories, %d operations: every return value, warning count, "
-                           "exception class, controller access, tell() after each operation, final memory)"
+                           "exception class, controller access, access attempted when the transport failed, tell() after each "
+                           "operation, final memory)"
                            % (chk.traces_validated, nops), True)
         except RuntimeError as e:
             chk.oblige("correspondence:model-evaluates", False, str(e))
@@ -420,7 +464,9 @@ def run(chk, args):
                             "address, <= 25 operations drawn from seek (from start/current/end, offsets around "
                             "-len..len+3 and beyond), read (default, negative, 0..len+4), write (0..len+5 bytes), "
                             "slice (None/negative/reversed/out-of-range bounds, of any view created so far), "
-                            "tell/len/address/flush, close, free; every 8th history also has bad from_what / "
+                            "tell/len/address/flush, close, free, reads/writes during which the controller raises (8%) or "
+                            "with TruncationWarning turned into an exception (6%), with-blocks entered and left "
+                            "normally / by an exception; every 8th history also has bad from_what / "
                             "non-contiguous slices; preceded by the fixed histories of corpus/C13.json; thorough adds "
                             "every 3-operation history over a 24-operation alphabet on lengths 0-3. non-trivial = "
                             "at least one controller transfer and at least one seek or slice; distinct by hash of "
